@@ -6,6 +6,7 @@ use proptest::prelude::*;
 use serde::{Deserialize, Serialize};
 use serde_json::Value;
 use std::io::{Read, Seek, Write};
+use std::os::unix::io::{AsRawFd, FromRawFd};
 use std::panic::{catch_unwind, AssertUnwindSafe};
 use subprocess::{Exec, ExitStatus, Pipeline, Redirection};
 
@@ -56,6 +57,11 @@ pub struct PipeCase {
     /// output on the left pipeline before the last command is appended
     #[serde(default)]
     pub stdout_on_left: bool,
+    /// the host runs with its own fd 1 closed and the stderr sink file was opened
+    /// in that state, i.e. it sits on descriptor 1 (only with a stderr file and
+    /// nothing inherited on stdin/stdout)
+    #[serde(default)]
+    pub sink_on_fd1: bool,
     pub stdin: PIn,
     pub stdout: POut,
     pub stderr: PErr,
@@ -249,11 +255,23 @@ pub fn check_case(ctx: &Ctx, case: &PipeCase, rep: &mut CaseReport) -> CaseResul
     let mut shape = String::new();
     let on_operands = case.config_on_operands && !case.use_iter;
     let want_stderr_to = case.stderr == PErr::ToFile && !matches!(case.term, PTerm::Capture | PTerm::Communicate);
+    let low_sink = case.sink_on_fd1 && want_stderr_to && case.stdin != PIn::Inherit && case.stdout != POut::Inherit;
+    // (closed until everything that may sit on fd 1 is gone again)
+    let low_guard = if low_sink { Some(CloseGuard::new(2)) } else { None };
+    let sink_for_cfg = || -> std::fs::File {
+        if low_sink {
+            let n = unsafe { libc::fcntl(err_file.as_raw_fd(), libc::F_DUPFD_CLOEXEC, 0) };
+            if n >= 0 {
+                return unsafe { std::fs::File::from_raw_fd(n) };
+            }
+        }
+        err_file.try_clone().unwrap()
+    };
     let full_cfg = || RootCfg {
         stdin: mk_in(case.stdin),
         stdin_data: if case.stdin == PIn::Data { Some(input.clone()) } else { None },
         stdout: mk_out(case.stdout),
-        stderr_to: if want_stderr_to { Some(err_file.try_clone().unwrap()) } else { None },
+        stderr_to: if want_stderr_to { Some(sink_for_cfg()) } else { None },
         applied: false,
         stdout_on_left: case.stdout_on_left,
     };
@@ -359,6 +377,7 @@ pub fn check_case(ctx: &Ctx, case: &PipeCase, rep: &mut CaseReport) -> CaseResul
             }
         }
     }));
+    drop(low_guard);
     let fail = |sig: &str, msg: String| Err(Fail::new(format!("C13:{}", sig), format!("{}\nshape={} case={:?}", msg, shape, case)));
     let (got_out, got_err, status) = match run {
         Err(_) => {
@@ -449,7 +468,7 @@ pub fn case_strategy() -> impl Strategy<Value = PipeCase> {
         prop::collection::vec(stage, 2..9),
         prop::collection::vec(any::<u8>(), 8),
         prop_oneof![5 => Just(false), 1 => Just(true)],
-        (any::<bool>(), any::<bool>()),
+        (any::<bool>(), any::<bool>(), prop_oneof![3 => Just(false), 1 => Just(true)]),
         prop_oneof![Just(PIn::Inherit), Just(PIn::Pipe), Just(PIn::File), Just(PIn::Data)],
         prop_oneof![Just(POut::Inherit), Just(POut::Pipe), Just(POut::File)],
         prop_oneof![Just(PErr::Inherit), Just(PErr::ToFile)],
@@ -457,7 +476,7 @@ pub fn case_strategy() -> impl Strategy<Value = PipeCase> {
         len,
         any::<u8>(),
     )
-        .prop_map(|(stages, splits, use_iter, (config_on_operands, stdout_on_left), stdin, stdout, stderr, term, data_len, data_seed)| {
+        .prop_map(|(stages, splits, use_iter, (config_on_operands, stdout_on_left, sink_on_fd1), stdin, stdout, stderr, term, data_len, data_seed)| {
             // make the stream kinds fit the terminator (construction)
             let (stdin, stdout) = match term {
                 PTerm::Join => (if matches!(stdin, PIn::Pipe | PIn::Data) { PIn::File } else { stdin }, if stdout == POut::Pipe { POut::File } else { stdout }),
@@ -466,7 +485,7 @@ pub fn case_strategy() -> impl Strategy<Value = PipeCase> {
                 PTerm::StreamStdin => (PIn::Pipe, if stdout == POut::Pipe { POut::File } else { stdout }),
                 PTerm::StreamStdout => (if matches!(stdin, PIn::Pipe | PIn::Data) { PIn::File } else { stdin }, POut::Pipe),
             };
-            PipeCase { stages, splits, use_iter, config_on_operands, stdout_on_left, stdin, stdout, stderr, term, data_len, data_seed }
+            PipeCase { stages, splits, use_iter, config_on_operands, stdout_on_left, sink_on_fd1, stdin, stdout, stderr, term, data_len, data_seed }
         })
 }
 
